@@ -11,7 +11,7 @@ import sysconfig
 from abc import ABCMeta, abstractmethod
 from contextlib import contextmanager
 from types import CodeType
-from typing import Iterator, Optional
+from typing import Dict, Iterator, Optional, Tuple
 
 from monkeytype.db.base import CallTraceStore, CallTraceStoreLogger
 from monkeytype.db.sqlite import SQLiteStore
@@ -94,7 +94,31 @@ def _startswith(a: pathlib.Path, b: pathlib.Path) -> bool:
         return False
 
 
-@functools.lru_cache(maxsize=8192)
+def _cached_by_filename(func: CodeFilter) -> CodeFilter:
+    """Cache a code filter whose verdict depends on the code's file (and on
+    MONKEYTYPE_TRACE_MODULES) only.
+
+    The key holds the file name, not the code object: code objects compare
+    equal when name, body and line numbers are equal, whatever file they come
+    from, so e.g. a vendored copy of an installed library would get the verdict
+    of whichever copy was seen first.
+    """
+    cache: Dict[Tuple[str, Optional[str]], bool] = {}
+
+    @functools.wraps(func)
+    def wrapper(code: CodeType) -> bool:
+        key = (code.co_filename, os.environ.get("MONKEYTYPE_TRACE_MODULES"))
+        try:
+            return cache[key]
+        except KeyError:
+            verdict = cache[key] = func(code)
+            return verdict
+
+    wrapper.cache_clear = cache.clear  # type: ignore[attr-defined]
+    return wrapper
+
+
+@_cached_by_filename
 def default_code_filter(code: CodeType) -> bool:
     """A CodeFilter to exclude stdlib and site-packages."""
     # Filter code without a source file
